@@ -225,6 +225,15 @@ fn run_dd_history(arm: &str, seed: u64, run: u64, agg: &mut Agg, explicit: Optio
             let dd = *rng.pick(&[Dd::Lel, Dd::Fc, Dd::Pooled]);
             let inst = Inst::new(t.clone());
             let mut ops = gen_dd_history(&mut rng, &inst);
+            if long_arcs {
+                // half of the roots are given the way the pooled diagram reports sub-problems: without the neutral decisions of
+                // skipped (irrelevant) variables, i.e. with a path that is shorter than the depth
+                for op in ops.iter_mut() { if rng.chance(1, 2) {
+                    let mut a = 0usize; let mut keep = vec![];
+                    for (l, (var, val)) in op.path.iter().enumerate() { if !inst.t.irrelevant[l][a] { keep.push((*var, *val)); } a = inst.t.next[l][a][*val as usize].unwrap_or(a as u8) as usize; }
+                    op.path = keep;
+                } }
+            }
             if narrow {
                 // many merges: relaxed compilations from shallow roots with widths 2..3 (so that set-states and their members meet in one layer)
                 for op in ops.iter_mut() { if rng.chance(3, 4) { op.ctype = 1; } op.width = 2 + rng.below(2); if rng.chance(2, 3) { op.layer = 0; op.base = 0; op.value = inst.t.v0; op.path = vec![]; if rng.chance(1, 2) { op.lb = isize::MIN; } } }
